@@ -152,3 +152,96 @@ pub fn lru_op(r: &mut Rng, kg: &mut KeyGen, vg: &mut ValGen, snap: &Ints, cap0: 
         _ => vec![26],
     }
 }
+
+/// resident + ghost keys of a composite snapshot: `hdr` header ints, then `nlists` entry lists
+pub fn multi_resident(snap: &Ints, hdr: usize, nlists: usize) -> (Vec<Vec<u64>>, usize) {
+    let mut lists = Vec::new();
+    let mut i = hdr;
+    for _ in 0..nlists {
+        let mut l = Vec::new();
+        if i < snap.len() {
+            let n = snap[i] as usize;
+            i += 1;
+            for j in 0..n {
+                l.push(snap[i + 2 * j] as u64);
+            }
+            i += 2 * n;
+        }
+        lists.push(l);
+    }
+    (lists, i)
+}
+
+/// one random Cache-trait operation
+pub fn trait_op(r: &mut Rng, kg: &mut KeyGen, vg: &mut ValGen, res: &[u64]) -> Ints {
+    let k = kg.pick(r, res) as i128;
+    match r.below(100) {
+        0..=39 => vec![0, k, vg.next()],
+        40..=57 => vec![1, k],
+        58..=65 => {
+            let (f, w) = wopt(r, vg);
+            vec![2, k, f, w]
+        }
+        66..=71 => vec![3, k],
+        72..=77 => {
+            let (f, w) = wopt(r, vg);
+            vec![4, k, f, w]
+        }
+        78..=82 => vec![5, k],
+        83..=93 => vec![6, k],
+        94 => vec![7],
+        95..=96 => vec![8],
+        97 => vec![9],
+        _ => vec![10],
+    }
+}
+
+pub fn slru_op(r: &mut Rng, kg: &mut KeyGen, vg: &mut ValGen, snap: &Ints) -> Ints {
+    let (lists, _) = multi_resident(snap, 2, 2);
+    let res: Vec<u64> = lists.concat();
+    match r.below(100) {
+        0..=74 => trait_op(r, kg, vg, &res),
+        75..=82 => vec![30, kg.pick(r, &res) as i128, vg.next()],
+        83..=90 => {
+            let c = 31 + r.below(8) as i128;
+            if (c - 31) % 2 == 1 {
+                let (f, w) = wopt(r, vg);
+                vec![c, f, w]
+            } else {
+                vec![c]
+            }
+        }
+        91..=94 => vec![39 + r.below(2) as i128],
+        95..=97 => vec![41 + r.below(4) as i128],
+        _ => vec![25],
+    }
+}
+
+pub fn list_iter_op(r: &mut Rng, vg: &mut ValGen, lists: &[Vec<u64>]) -> Ints {
+    let li = r.below(lists.len() as u64) as usize;
+    let mut v = vec![60, li as i128];
+    v.extend(iter_args(r, vg, &[0, 1, 2, 3, 4, 5, 6, 7, 8, 9], lists[li].len()));
+    v
+}
+
+pub fn twoq_op(r: &mut Rng, kg: &mut KeyGen, vg: &mut ValGen, snap: &Ints) -> Ints {
+    let (lists, _) = multi_resident(snap, 3, 3);
+    // ghosts are interesting keys too
+    let res: Vec<u64> = lists.concat();
+    match r.below(100) {
+        0..=87 => trait_op(r, kg, vg, &res),
+        88..=90 => vec![50 + r.below(3) as i128],
+        91 => vec![26],
+        _ => list_iter_op(r, vg, &lists),
+    }
+}
+
+pub fn arc_op(r: &mut Rng, kg: &mut KeyGen, vg: &mut ValGen, snap: &Ints) -> Ints {
+    let (lists, _) = multi_resident(snap, 2, 4);
+    let res: Vec<u64> = lists.concat();
+    match r.below(100) {
+        0..=87 => trait_op(r, kg, vg, &res),
+        88..=91 => vec![70 + r.below(5) as i128],
+        _ => list_iter_op(r, vg, &lists),
+    }
+}
